@@ -6,7 +6,7 @@ from harness.props import socks_common as sc
 HOSTS = ['1.2.3.4', '0.0.0.7', '255.255.255.255', '10.0.1.0', '1.0.0.0', '255.255.255.0', '0.0.0.0', '172.16.0.0', '::1', 'fe80::1%eth0', 'fe80::dead:beef%3', '2001:db8::ff00:42:8329', '::ffff:1.2.3.4', '::ffff:0:0', '::', '64:ff9b::1.2.3.4', 'a', 'example.com',
          # host names that merely look like numbers (lenient address parsers read them as IPv4: they are names)
          '0x7f.0x1', '0x7f000001', '10.0.0.0x1', '0x1.0x2.0x3.0x4', '0x10', '1.2.3.4a', '127.0.0.1.example', '0300.0250.1.0x1', '1.2.3.0b1',
-         'a-b_c.example', 'x' * 63 + '.' + 'y' * 63 + '.' + 'z' * 63 + '.' + 'w' * 58 + '.de', 'localhost.']
+         'WWW.Example.COM', 'foo1.Foo', 'EXPYUZZ.ONION', 'MiXeD-Case_.Host', 'A', 'a-b_c.example', 'x' * 63 + '.' + 'y' * 63 + '.' + 'z' * 63 + '.' + 'w' * 58 + '.de', 'localhost.']
 ALPH = 'ab09 ._-é€\U0001F600\x01\x7f'
 
 
@@ -60,7 +60,7 @@ class C16(Prop):
             host = rng.choice(HOSTS)
             if rng.random() < 0.2:
                 # a random valid host name: 1-4 labels, number-like ones among them, the last one not all digits
-                labs = [rng.choice(['a', '0x1f', '10', 'x-1', '_srv', '0xff', 'z9', '0', '255', '0x0', 'ff', '1e3', '0o7'])
+                labs = [rng.choice(['a', '0x1f', '10', 'x-1', '_srv', '0xff', 'z9', '0', '255', '0x0', 'ff', '1e3', '0o7', 'Ab', 'XN--P1AI', 'Q'])
                         for _ in range(rng.randrange(1, 5))]
                 if labs[-1].isdigit():
                     labs[-1] = rng.choice(['0x1', 'com', '0xc0a80101', 'x1'])
